@@ -43,6 +43,7 @@ void ChunkStore::put(const ChunkId& id,
             wipe_persisted_chunk(existing->second);
         }
     }
+    std::erase(expired_unreported_, id);  // stored again: the chunk is live, nothing is left to report
 
     ChunkRecord record{};
     record.id = id;
@@ -85,6 +86,7 @@ std::optional<ChunkRecord> ChunkStore::get_record(const ChunkId& id) {
         if (it->second.persisted && wipe_on_expiry_) {
             wipe_persisted_chunk(it->second);
         }
+        expired_unreported_.push_back(it->second.id);
         chunks_.erase(it);
         return std::nullopt;
     }
@@ -96,6 +98,7 @@ std::vector<ChunkId> ChunkStore::sweep_expired() {
     std::scoped_lock lock(chunks_mutex_);
     const auto now = std::chrono::steady_clock::now();
     std::vector<ChunkId> removed;
+    removed.swap(expired_unreported_);
     for (auto it = chunks_.begin(); it != chunks_.end();) {
         if (now >= it->second.expires_at) {
             if (it->second.persisted && wipe_on_expiry_) {
